@@ -26,8 +26,46 @@ def _getattr_dispatch(call):
         if isinstance(sel, ast.BinOp) and isinstance(sel.op, ast.Add) and const_str(sel.right) is not None:
             suffix = const_str(sel.right)
             sel = sel.left
+        elif isinstance(sel, ast.BinOp) and isinstance(sel.op, ast.Mod) and const_str(sel.left) is not None \
+                and const_str(sel.left).startswith('%s') and '%' not in const_str(sel.left)[2:] \
+                and not isinstance(sel.right, ast.Tuple):
+            suffix = const_str(sel.left)[2:]            # '%s_begin' % fmt
+            sel = sel.right
+        elif isinstance(sel, ast.Call) and isinstance(sel.func, ast.Attribute) and sel.func.attr == 'format' \
+                and const_str(sel.func.value) is not None and len(sel.args) == 1 and not sel.keywords \
+                and any(const_str(sel.func.value).startswith(p_) for p_ in ('{}', '{0}', '{!s}', '{0!s}')) \
+                and '{' not in const_str(sel.func.value).split('}', 1)[1]:
+            suffix = const_str(sel.func.value).split('}', 1)[1]     # '{}_begin'.format(fmt)
+            sel = sel.args[0]
+        elif isinstance(sel, ast.Call) and isinstance(sel.func, ast.Attribute) and sel.func.attr == 'join' \
+                and const_str(sel.func.value) == '' and len(sel.args) == 1 and isinstance(sel.args[0], (ast.List, ast.Tuple)) \
+                and len(sel.args[0].elts) == 2 and const_str(sel.args[0].elts[1]) is not None:
+            suffix = const_str(sel.args[0].elts[1])                 # ''.join([fmt, '_begin'])
+            sel = sel.args[0].elts[0]
         return f.args[0].id, suffix, unparse(sel)
     return None
+
+
+def _same_try(f, a_stmt, b_stmt):
+    """a_stmt sits in the `finally` (or a handler) of the try statement whose body holds b_stmt."""
+    for t in ast.walk(f.node):
+        if isinstance(t, ast.Try) and any(b_stmt is x for st in t.body for x in ast.walk(st)):
+            if any(a_stmt is x for st in t.finalbody for x in ast.walk(st)):
+                return True
+    return False
+
+
+def _hash_number(v):
+    """`'#%d' % n`, `'#%s' % n`, `'#' + str(n)`, `'#{}'.format(n)`: the export reference to a numbered constituent."""
+    if isinstance(v, ast.BinOp) and isinstance(v.op, ast.Mod) and const_str(v.left) in ('#%d', '#%s', '#%i'):
+        return True
+    if isinstance(v, ast.BinOp) and isinstance(v.op, ast.Add) and const_str(v.left) == '#' and isinstance(v.right, ast.Call) \
+            and unparse(v.right.func) == 'str' and len(v.right.args) == 1:
+        return True
+    if isinstance(v, ast.Call) and isinstance(v.func, ast.Attribute) and v.func.attr == 'format' \
+            and const_str(v.func.value) in ('#{}', '#{0}', '#{:d}', '#{0:d}', '#{!s}', '#{0!s}') and len(v.args) == 1 and not v.keywords:
+        return True
+    return False
 
 
 def _starstar(call):
@@ -249,6 +287,19 @@ def r_framefile(prog, tier):
                     break
     obs.append(Ob('R-FRAMEFILE/ONCE', f.fq, 'every tree goes to exactly one part, in the original order', ok_iter, why,
                   construct='once-iter', line=wn.lineno))
+    # ---- every tree of the input is read: the loop over the reader is not left with `break`
+    for rl in cfg.eval_nodes():
+        if rl.kind == 'iter' and isinstance(rl.ast.iter, ast.Call):
+            d_ = _getattr_dispatch(rl.ast.iter)
+            if not (d_ and d_[0] == 'treeinput'):
+                continue
+            for b_ in cfg.eval_nodes():
+                if b_.kind == 'stmt' and isinstance(b_.ast, ast.Break) and b_.loops and b_.loops[-1] == rl.id:
+                    obs.append(Ob('R-FRAMEFILE/ONCE', f.fq, 'the loop over the trees of the input runs to the end', False,
+                                  '`break` under %s leaves the loop over the reader: the trees after that point are never read, so '
+                                  'they reach no output file (a dropped tree is skipped with `continue`, not with `break`)'
+                                  % [('' if a_.pol else 'not ') + unparse(a_.ast)[:40] for a_ in cfg.assumes_at(b_.id) if rl.id in a_.loops],
+                                  construct='once-readall', line=b_.lineno))
     # ---- both branches apply the transformations the same way
     tl = []
     for n in cfg.eval_nodes():
@@ -831,6 +882,27 @@ def r_state(prog, tier):
                               'a later call with the same file sees a different table', construct='g3-mut:' + mt,
                               line=n.lineno))
         dels = [n for n in cfg.eval_nodes() if n.kind == 'stmt' and isinstance(n.ast, ast.Delete)]
+        # a load that is given up with an error leaves nothing behind: the half-read table would be found under the file name
+        stores_fn = [n for n in cfg.eval_nodes() if n.kind == 'stmt' and isinstance(n.ast, ast.Assign)
+                     and unparse(n.ast.targets[0]) == '%s.fn' % nm]
+        for r_ in [n for n in cfg.eval_nodes() if n.kind == 'stmt' and isinstance(n.ast, ast.Raise) and n.id not in reach_false]:
+            if not stores_fn or not any(cfg.dominates(sf_.id, r_.id) for sf_ in stores_fn):
+                continue
+            dropped = [d_ for d_ in dels if unparse(d_.ast) in ('del %s.fn' % nm, 'del %s.terminals' % nm)
+                       and (cfg.dominates(d_.id, r_.id) or _same_try(f, d_.ast, r_.ast))]
+            helpers_drop = False
+            for c_ in walk_own(f.node):
+                if isinstance(c_, ast.Call):
+                    t_ = prog.callee(c_, f)
+                    g_ = prog.func(t_[0], t_[1], required=False) if t_ else None
+                    if g_ is not None and any(isinstance(y_, ast.Delete) for y_ in walk_own(g_.node)):
+                        helpers_drop = True
+            if not dropped and not helpers_drop and not any(isinstance(t_, ast.Try) for t_ in walk_own(f.node)):
+                obs.append(Ob('R-STATE/G3', f.fq, 'a load that fails leaves no cache behind', False,
+                              '`%s` (line %d) gives the load up after `%s.fn` was set and part of the table filled, without '
+                              '`del %s.terminals` / `del %s.fn`: the next call with the same file name skips loading and works '
+                              'with the half-read table' % (unparse(r_.ast)[:40], r_.lineno, nm, nm, nm),
+                              construct='g3-raise-keeps', line=r_.lineno))
         dt = [n for n in dels if unparse(n.ast) == 'del %s.terminals' % nm]
         df = [n for n in dels if unparse(n.ast) == 'del %s.fn' % nm]
         def _same_block(a_, b_):
@@ -1005,8 +1077,7 @@ def _writer_purity(prog):
                     ok = True
                     why = '(i) None-defaulting: only an absent field is filled with the documented default'
                 elif k == 'word' and any(fa == ('opaque', 'trees.has_children(%s)' % X, True) for fa in facts) \
-                        and isinstance(d.value, ast.BinOp) and isinstance(d.value.op, ast.Mod) \
-                        and const_str(d.value.left) == '#%d':
+                        and _hash_number(d.value):
                     ok = True
                     why = '(iii) export node reference #NNN on a constituent (constituents carry no word)'
                 elif _restored(f, d, k) or _is_restore(f, d, k):
